@@ -1,5 +1,5 @@
 #!/usr/bin/env python3
-"""Copy the confirmed round-2 seeded changes from /tmp/seed2 into /verif/seeded with their meta.json."""
+"""Copy confirmed seeded changes (rounds 2-4) from their scratch directory into /verif/seeded with their meta.json."""
 import json, shutil, sys
 from pathlib import Path
 SRC, DST = Path(sys.argv[1] if len(sys.argv) > 1 else "/tmp/seed2"), Path("/verif/seeded")
@@ -42,7 +42,24 @@ if ROUND == 3:
               "C18E": "unequal Tucker ranks under relabelling",
               "C18F": "element type (int64) as a presentation coordinate",
               "C19F": "ill-formed factor collections handed over as a Kruskal tensor"}
-for d in sorted(SRC.glob("C??[CDEF]")):
+if ROUND == 4:
+    MISSED = {"C03H": "a common power-of-two magnitude (2^-600, 2^600) on both operands of the logical and comparison operators",
+              "C05G": "a receiver with a singleton mode and unfoldings that move only that mode",
+              "C06H": "a tensor at non-dyadic values compared with its own sorted / reversed storage",
+              "C07G": "IndexMaps_Wide: reshaped modes longer than every mode of the operand, narrow subscript types",
+              "C08H": "the parameter vector stays with the caller and a second Kruskal tensor is built from it",
+              "C09G": "data magnitude (2^-40, 2^30) as a presentation of the CP-ALS problem",
+              "C10G": "'choose the rank automatically' spelled as an explicit vector of zeros; vectors as array / list / tuple",
+              "C11G": "integer-typed (int64) count data",
+              "C12G": "integer-typed data (int64, uint8) for the count and indicator losses",
+              "C15G": "8-bit and boolean element types for symmetrize / issymmetric",
+              "C15H": "Kruskal symmetry test on factor matrices that differ by 1e-7 .. 1e-12 relative",
+              "C16G": "sparse tensors at the far end of a mode longer than 2^53",
+              "C17H": "last-index-fastest numbering of the mirrored problem (order='C')",
+              "C18G": "starting guesses with an all-zero row for the CP-APR problems",
+              "C18H": "an option object that has already solved a problem of another size; long L-BFGS-B runs",
+              "C20G": "function handles returning C-ordered / strided arrays"}
+for d in sorted(SRC.glob("C??[CDEFGH]")):
     rj = d / "result.json"
     if not rj.exists():
         print(d.name, "no result"); continue
